@@ -120,6 +120,11 @@ func (m *RTMon) Feed(e RTEvent) {
 	switch e.Kind {
 	case "sep":
 	case "mark":
+		if !outside {
+			// a finaliser re-marked a value: the orders the current batch was
+			// sorted by are no longer the current ones
+			m.batchOrd = 0
+		}
 		v := m.val(e.ID)
 		own := m.isolating()
 		if v.Known && v.Owner >= 0 && v.Owner != own.inst && m.find(v.Owner) != nil {
